@@ -535,6 +535,21 @@ func runReplay(path, repo string) int {
 		return 2
 	}
 	fmt.Print(string(data))
+	// a bounded stand-in records its failing input in the file: run it again on the real code
+	if strings.Contains(string(data), "FAILING-INPUT: wkt.Unmarshal(") {
+		c := exec.Command("bash", "-c", "bounded/C06/run.sh -input "+strconv.Quote(path))
+		c.Dir = filepath.Dir(filepath.Dir(filepath.Dir(path)))
+		if _, err := os.Stat(filepath.Join(c.Dir, "bounded")); err != nil {
+			c.Dir = "/verif"
+		}
+		out, err := c.CombinedOutput()
+		fmt.Println("replay against the real code:")
+		fmt.Print(string(out))
+		if err != nil {
+			return 1
+		}
+		return 0
+	}
 	// a replay file may carry a Go test to run against the real code
 	gofile := strings.TrimSuffix(path, ".txt") + ".go"
 	if _, err := os.Stat(gofile); err == nil {
